@@ -2,6 +2,7 @@
 import io
 import math
 import os
+import signal
 import tempfile
 
 import numpy as np
@@ -934,6 +935,17 @@ def my_total(S, st_, x, d, K):
     return tot, tot - (mr[0] - mr[1]), tot + (mr[2] - mr[0]), math.fsum(p[1] for p in parts)
 
 
+SOLVE_CPU_LIMIT = 90.0
+
+
+class _SolveTimeout(BaseException):
+    pass
+
+
+def _on_alarm(signum, frame):
+    raise _SolveTimeout()
+
+
 def oracle_solve(case):
     S = build_pn_system(case['sys'])
     blocked_multi(S)
@@ -950,6 +962,9 @@ def oracle_solve(case):
     if not case['default_method']:
         kw['min_method'] = case['method']
     labels.add('m_' + case['method'])
+    # safety net (CPU-time alarm): a line search that runs away never returns; such a case is skipped, not judged
+    old_handler = signal.signal(signal.SIGVTALRM, _on_alarm)
+    signal.setitimer(signal.ITIMER_VIRTUAL, SOLVE_CPU_LIMIT)
     try:
         if st_['via_solve_kw']:
             pn.solve(x=x, disregistry=d.copy(), **kw)
@@ -957,10 +972,15 @@ def oracle_solve(case):
             pn.x = x
             pn.disregistry = d.copy()
             pn.solve(**kw)
+    except _SolveTimeout:
+        return labels | {'timeout_skipped'}
     except ValueError as e:
         if st_['fullstress'] and st_['cdiffstress'] and 'broadcast' in str(e):
             raise Violation('solve with fullstress=True, cdiffstress=True: stress_energy raised ValueError(%s)' % e, key=K_CDIFF)
         raise
+    finally:
+        signal.setitimer(signal.ITIMER_VIRTUAL, 0)
+        signal.signal(signal.SIGVTALRM, old_handler)
     d1 = np.asarray(pn.disregistry, dtype=float)
     require(d1.shape == d.shape, lambda: 'solve changed the disregistry shape %r -> %r' % (d.shape, d1.shape))
     require(bool(np.all(np.isfinite(d1))), 'solve produced a non-finite disregistry')
@@ -997,7 +1017,7 @@ def _hw_energy(pn, b_vec, xi, L, dx, am):
         xx, dd = am.defect.pn_arctan_disregistry(x=x, burgers=b_vec, halfwidth=w, normalize=True)
         return float(pn.total_energy(xx, dd))
     # coarse scan over [0.5, 2] xi0 then golden section in the bracketing interval
-    ws = [xi * (0.5 * 4.0 ** (i / 10.0)) for i in range(11)]
+    ws = [xi * (0.5 * 4.0 ** (i / 6.0)) for i in range(7)]
     es = [E(w) for w in ws]
     k = int(np.argmin(es))
     if k == 0 or k == len(ws) - 1:
@@ -1006,7 +1026,7 @@ def _hw_energy(pn, b_vec, xi, L, dx, am):
     gr = (math.sqrt(5) - 1) / 2
     x1, x2 = c - gr * (c - a), a + gr * (c - a)
     f1, f2 = E(x1), E(x2)
-    for _ in range(14):
+    for _ in range(8):
         if f1 < f2:
             c, x2, f2 = x2, x1, f1
             x1 = c - gr * (c - a)
@@ -1142,30 +1162,33 @@ def _periodic_cases(draw):
 
 
 CLAUSES = [
+    # min_share values are about half of the share observed on the unchanged /repo, where the cases that hit an open
+    # finding are excluded without labels (they still count in the denominator)
     Clause('interp', oracle_interp, G.interp_cases, quick=900, thorough=16000,
-           min_share={'nt': 0.4, 'oblique': 0.25, 'dup_edge': 0.2, 'delta': 0.2, 'kind_random': 0.2},
+           min_share={'nt': 0.45, 'oblique': 0.35, 'dup_edge': 0.25, 'delta': 0.2, 'kind_random': 0.18, 'list': 0.2},
            desc='E_gsf/delta reproduce every input value at its sampled (a1,a2), smooth and nearest modes, arrays/lists/floats'),
     Clause('periodic', oracle_periodic, _periodic_cases, quick=900, thorough=16000,
-           min_share={'nt': 0.3, 'oblique': 0.2, 'shifted': 0.35},
+           min_share={'nt': 0.35, 'oblique': 0.28, 'shifted': 0.35, 'scalar': 0.18},
            desc='E(a1+k1, a2+k2) = E(a1, a2) for integer periods; nearest mode equals the exact nearest-sample table'),
     Clause('coords', oracle_coords, G.coords_cases, quick=1200, thorough=20000,
-           min_share={'nt': 0.4, 'oblique': 0.25, 'npts3': 0.1, 'xvect': 0.2},
+           min_share={'nt': 0.45, 'oblique': 0.4, 'npts3': 0.15, 'xvect': 0.18, 'scalar': 0.18},
            desc='a12_to_pos, pos_to_xy, xy_to_pos, a12_to_xy, pos_to_a12(single) against independent basis algebra; mutual inverses'),
     Clause('coords_multi', oracle_coords_multi, G.coords_cases, quick=1200, thorough=20000,
-           min_share=_BlockedGuard({'nt': 0.4, 'oblique': 0.2, 'npts3': 0.1, 'altvect': 0.2}),
+           min_share=_BlockedGuard({'nt': 0.3, 'oblique': 0.25, 'npts3': 0.1, 'npts7': 0.06, 'altvect': 0.12, 'smooth': 0.15, 'nearest': 0.2}),
            desc='pos_to_a12 / xy_to_a12 on 1,2,3,7 positions; E_gsf and delta given a1/a2, pos, x/y, alternative vectors agree'),
-    Clause('model', oracle_model, G.model_cases, quick=400, thorough=6000, min_share={'nt': 0.2, 'json': 0.2},
+    Clause('model', oracle_model, G.model_cases, quick=400, thorough=6000, min_share={'nt': 0.3, 'json': 0.3},
            desc='model() -> JSON/XML text, DataModelDict or file -> GammaSurface: same data, vectors, box, answers'),
     Clause('pn_terms', oracle_pn_terms, G.pn_cases, quick=1500, thorough=25000,
-           min_share={'nt': 0.25, 'mixed': 0.4, 'K_offdiag': 0.2, 'N>120': 0.05},
+           min_share={'nt': 0.16, 'mixed': 0.23, 'K_offdiag': 0.13, 'N>120': 0.1, 'cdiffelastic': 0.15, 'tau': 0.15},
            desc='disldensity, elastic, long-range, stress (both forms), surface, nonlocal vs independent formula evaluation; quadratic form, rigid shift'),
     Clause('pn_total', oracle_pn_total, G.pn_cases, quick=1000, thorough=16000,
-           min_share=_BlockedGuard({'nt': 0.25, 'mixed': 0.4, 'wraps': 0.1}),
+           min_share=_BlockedGuard({'nt': 0.15, 'mixed': 0.23, 'wraps': 0.1, 'crystal_rot': 0.15}),
            desc='misfit energy vs dx*sum gamma(delta) by independent conversion; total = sum of the six terms'),
-    Clause('solve', oracle_solve, G.solve_cases, quick=48, thorough=480,
+    Clause('solve', oracle_solve, G.solve_cases, quick=64, thorough=640, max_share={'timeout_skipped': 0.2},
+           min_share=_BlockedGuard({'moved': 0.5, 'lowered': 0.4}),
            desc='solve never raises the (independently evaluated) total energy, end rows/x/out-of-plane component unchanged'),
     Clause('halfwidth', oracle_halfwidth, G.halfwidth_cases, quick=32, thorough=320,
            desc='sinusoidal misfit law: arctangent profile of lowest total energy has the classical half-width K b^2/(4 pi^2 gamma0)'),
-    Clause('arctan', oracle_arctan, G.arctan_cases, quick=1500, thorough=25000, min_share={'nt': 0.5, 'normalize': 0.25},
+    Clause('arctan', oracle_arctan, G.arctan_cases, quick=1500, thorough=25000, min_share={'nt': 0.5, 'normalize': 0.2, 'derivative': 0.15},
            desc='pn_arctan_disregistry / pn_arctan_disldensity against the analytic forms, normalisation, x generation'),
 ]
